@@ -35,6 +35,8 @@ def gen_pack_case(rng, tier="quick", small=False):
     kinds = None
     frame = gen.gen_frame_spec(rng, nrows, kinds=kinds, index_kind=rng.choice(
         ("default", "named", "nonunique")))
+    if rng.random() < 0.12:
+        gen.loosen_rings(frame, rng)            # unvalidated polygons: a ring outside the first
     if rng.random() < 0.1:
         gen.make_collinear(frame, rng)          # total extent degenerate in one axis only
     if rng.random() < 0.15:
